@@ -11,6 +11,7 @@ pub fn harnesses() -> Vec<Harness> {
         Harness { name: "c18_ops", property: "C18", f: c18_ops, about: "sequences of add / status update / remove / clean-up / clock advance: limits, expiry and reliability hold after every clean-up-bearing operation; stored addresses are well formed" },
         Harness { name: "c18_shapes", property: "C18", f: c18_shapes, about: "multiaddress shapes: only dialable addresses carrying a peer id are stored, in normalised form" },
         Harness { name: "c18_sync_flush", property: "C18", f: c18_sync_flush, about: "merge with the on-disk cache loses nothing known to either side; save then load returns the same peers and addresses; limits after clean-up" },
+        Harness { name: "c18_untrusted_file", property: "C18", f: c18_untrusted_file, about: "a well-formed cache file whose timestamps and counters are arbitrary (untrusted) values loads or is rejected without a panic; what is loaded is clean" },
         Harness { name: "c18_corrupt", property: "C18", f: c18_corrupt, about: "corrupt or foreign cache file is ignored without a panic and replaced by a loadable file" },
     ]
 }
@@ -259,5 +260,32 @@ fn c18_corrupt() {
     check_bool("corrupt:replaced_by_a_loadable_file", loaded.is_ok());
     if let Ok(d) = loaded {
         check_bool("corrupt:own_knowledge_survives", all_pairs(&d) == before);
+    }
+}
+
+fn c18_untrusted_file() {
+    let store = setup(2, 2);
+    // a syntactically valid file written by somebody else: last_seen is any 64-bit value
+    let t = SymU::<64>::fresh("file_last_seen_s");
+    let mut data = CacheData::default();
+    let mut a = BootstrapAddr::new(quic(1, 1));
+    a.last_seen = crate::shim::SystemTime(t);
+    a.success_count = [0u32, 1, u32::MAX][choice(3)];
+    a.failure_count = [0u32, 1, u32::MAX][choice(3)];
+    data.insert(pid(1), a);
+    let text = serde_json::to_string(&data).expect("serialise");
+    symrt::env::fs::write("/cache/bootstrap_cache.json", text.as_bytes()).unwrap();
+    let r = BootstrapCacheStore::load_cache_data(store.config());
+    cover("loaded");
+    if let Ok(d) = r {
+        let now = now_secs();
+        for (peer, addrs) in d.peers.iter() {
+            for x in addrs.0.iter() {
+                check("untrusted:loaded_address_not_expired", now.wrapping_sub(x.last_seen.0).slt(expiry()).0);
+                check("untrusted:loaded_address_not_from_the_future", x.last_seen.0.sle(now).0);
+                check_bool("untrusted:loaded_address_reliable", x.failure_count <= x.success_count);
+                check_well_formed(peer, &x.addr, "untrusted");
+            }
+        }
     }
 }
